@@ -96,6 +96,63 @@ func stressCheck(e *env, q *ketoapi.RelationTuple, depth int, want string, reps,
 	return dev
 }
 
+// diamondStress: concurrent requests whose walks share subject sets.  dA reaches "team" through five groups (the check is
+// answered through the first one while the sub-checks for its siblings are still running), dB reaches the same "team"
+// through one group only; team -> inner -> user, so membership is found two levels below the shared set.  Whatever one
+// request (or a straggling goroutine of a request that is already answered) has visited must never be held against
+// another request: every answer is "is".  Returns the number of deviating answers out of reps.
+func diamondStress(t *testing.T, ee *engineEnv, target *env, nss []*namespace.Namespace, reps, par int) (int, bool) {
+	for _, ns := range nss[1:] {
+		for _, rel := range ns.Relations {
+			if rel.SubjectSetRewrite != nil {
+				continue
+			}
+			mk := func(o string, sid *string, so string) *ketoapi.RelationTuple {
+				tu := &ketoapi.RelationTuple{Namespace: ns.Name, Object: o, Relation: rel.Name, SubjectID: sid}
+				if sid == nil {
+					tu.SubjectSet = &ketoapi.SubjectSet{Namespace: ns.Name, Object: so, Relation: rel.Name}
+				}
+				return tu
+			}
+			u := egUsers[0]
+			groups := []string{"gF", "gS", "g3", "g4", "g5"}
+			var ts []*ketoapi.RelationTuple
+			for _, g := range groups {
+				ts = append(ts, mk("dA", nil, g), mk(g, nil, "team"))
+			}
+			ts = append(ts, mk("dB", nil, "hO"), mk("hO", nil, "team"), mk("team", nil, "inner"), mk("inner", &u, ""))
+			for _, x := range append([]string{"dA", "dB", "hO", "team", "inner"}, groups...) {
+				ee.pool.add(x)
+			}
+			ee.insert(t, ts)
+			qa, qb := mk("dA", &u, ""), mk("dB", &u, "")
+			var wg sync.WaitGroup
+			var mu sync.Mutex
+			dev := 0
+			for g := 0; g < par; g++ {
+				wg.Add(1)
+				go func(g int) {
+					defer wg.Done()
+					for i := 0; i < reps/par; i++ {
+						q := qa
+						if (i+g)%2 == 1 {
+							q = qb
+						}
+						if got := checkVia(target, q, 0); got != "is 0" {
+							mu.Lock()
+							dev++
+							mu.Unlock()
+						}
+					}
+				}(g)
+			}
+			wg.Wait()
+			return dev, true
+		}
+	}
+	return 0, false
+}
+
 func listAll(e *env, v url.Values, size int) string {
 	var all []string
 	tok := ""
@@ -452,6 +509,17 @@ func suiteConc(t *testing.T, cfg cfgT) {
 					picked++
 					cases++
 				}
+			}
+		}
+		if rounds < 2 && !strict {
+			if dev, ok := diamondStress(t, eeA, b, nss, 4800, 16); ok {
+				verdict := "same"
+				if dev > 0 {
+					verdict = fmt.Sprintf("diff %d-of-4800-checks-on-shared-subject-sets-answered-not-allowed", dev)
+				}
+				out.emit("conc diamond-stress -", verdict)
+				out.stat("stress.diamond")
+				cases++
 			}
 		}
 		rounds++
